@@ -3,7 +3,7 @@
 cd /verif
 OUT=/verif/seeded/RESULTS.jsonl
 : > $OUT
-for d in seeded/C*_[ab]; do
+for d in seeded/C*_[a-z]; do
   S=$(basename $d); ID=${S%%_*}
   LOG=$(mktemp)
   tools/try_seed.sh $S $ID quick > $LOG 2>&1; RC=$?
